@@ -33,6 +33,12 @@ def consults(node, ctxname):
 
 def run(ctx, rep):
     ix, T = ctx.ix, ctx.typer
+    from .common import check_memo_numeric_keys
+    check_memo_numeric_keys(ctx, rep, "C07.11")
+    from .common import check_alias_name_kept
+    check_alias_name_kept(ctx, rep, "C07.10")
+    from .common import check_context_bookkeeping_keys
+    check_context_bookkeeping_keys(ctx, rep, "C07.9")
     from .common import check_scope_discipline
     check_scope_discipline(ctx, rep, "C07.5", "C07.6", "C07.7")
     from .common import check_fast_paths
